@@ -30,7 +30,7 @@ import (
 const rule = "cases = short concurrent histories (N writers x M readers on 9 route keys that share radix nodes but have pairwise disjoint match languages; single operations, " +
 	"multi-key transactions, aborted transactions; reads through ServeHTTP, Lookup, Reverse, Has, Route, Iter and View; GOMAXPROCS and injected delays at the commit hooks varied); " +
 	"one evaluation = one recorded history checked offline; distinct by the hash of its call-ordered (client, op, key, result) sequence; " +
-	"non-trivial when at least one read overlaps in time a committed write to the same key; plus three request-versus-commit monitors: method flip, OPTIONS * asked by the writer after each of its writes returned, and a parameter storm (4 x GOMAXPROCS goroutines with private values through routes using nested pooled sub-contexts while a writer commits)"
+	"non-trivial when at least one read overlaps in time a committed write to the same key; plus three request-versus-commit monitors: method flip, OPTIONS * asked by the writer after each of its writes returned, and a truncate storm (custom verbs emptied, removed and re-created while untouched verbs are served and all-verb scans run), and a parameter storm (4 x GOMAXPROCS goroutines with private values through routes using nested pooled sub-contexts while a writer commits)"
 
 type in struct {
 	Key string
